@@ -60,14 +60,18 @@ def _proc_root():
     return r
 
 
+RARGS = {"a_A": "A", "a_B": "B"}
+
+
 def content(u, v):
+    # (each version of a file has its own page signature, see C14)
     if v == "X":
         return "${"
-    return "%s|%s|${1+1}" % (u, v)
+    return "<%%page args=\"a_%s='none'\"/>%s|%s|${1+1}|${a_%s}" % (v, u, v, v)
 
 
 def marker(u, v):
-    return "%s|%s|2" % (u, v)
+    return "%s|%s|2|%s" % (u, v, v)
 
 
 class World:
@@ -152,7 +156,7 @@ def _ydict(s, old, size, mutil):
 
 def _render(t):
     try:
-        return t.render()
+        return t.render(**RARGS)
     except BaseException as e:  # noqa
         return "EXC:%s" % type(e).__name__
 
